@@ -24,7 +24,8 @@ def RULE(tier):
     return ("cases = (stabilizer, connectivity): all groups for n<=4 (thorough: n<=5), class-stratified random "
             "members for every (configuration, class) pair at n=5,6; per case the readout API is called for the "
             "given signs and for further sign patterns of the same generators (all 2^n for n<=3, 2 random otherwise) "
-            "and every one of the 2^n group elements is conjugated through the result; non-trivial = entangled "
+            "and every one of the 2^n group elements is conjugated through the result; plus request sequences around anchors (tableau "
+            "neighbours, generator siblings, one-qubit variants) and a retention monitor on returned circuits; non-trivial = entangled "
             "state; distinct = distinct (n, connectivity, format, canonical signed group)")
 
 
